@@ -61,6 +61,23 @@ Theorem C05_live_timeout_can_run : forall k s id t,
 Proof. exact live_timeout_can_run. Qed.
 Print Assumptions C05_live_timeout_can_run.
 
+(* the whole path from the script's delay argument to the armed duration (delayMillis after ToNumber: rounded up, saturating;
+   then msToDuration): for every finite non-negative delay n/d milliseconds - fractional, huge, given as a number, a string
+   or an object - the timer is armed for at least that long, or for the largest duration there is *)
+Theorem C05_delay_never_early : forall n d, 0 < d -> 0 <= n ->
+  let armed := ms_to_duration (delay_millis (Some (n, d))) in
+  armed * d >= n * 1000000 \/ armed = max64.
+Proof. exact delay_never_early. Qed.
+Print Assumptions C05_delay_never_early.
+
+Example C05_delay_examples :
+  ms_to_duration (delay_millis (Some (19, 10))) = 2000000 /\                         (* 1.9 ms -> 2 ms *)
+  ms_to_duration (delay_millis (Some (99, 100))) = 1000000 /\                        (* 0.99 ms -> 1 ms *)
+  ms_to_duration (delay_millis (Some (10 ^ 30, 1))) = max64 /\                       (* "1e30" *)
+  ms_to_duration (delay_millis (Some (18446744073710, 1))) = max64 /\                (* the product wraps past 2^64 *)
+  ms_to_duration (delay_millis None) = 0.                                            (* NaN *)
+Proof. vm_compute. repeat split; reflexivity. Qed.
+
 (* the text of eventloop/eventloop.go, and the order of its synchronisation points, are what the model was written against *)
 Theorem C05_source_tie : loop_funcs = expected_loop_funcs /\ loop_points = expected_loop_points.
 Proof. exact (conj loop_source_unchanged loop_points_unchanged). Qed.
